@@ -52,7 +52,7 @@ def run_case(case):
         cnt[k] = cnt.get(k, 0) + n
 
     def viol(mech, what, extra=None):
-        res["violations"].append({"mechanism": mech, "what": f"{case['kind']}/{case.get('fault') or case.get('kill')}: {what}", "replay": {"case": case, "extra": extra}})
+        res["violations"].append({"mechanism": mech, "what": f"{case['kind']}/{case.get('fault') or case.get('kill') or case.get('interrupt')}: {what}", "replay": {"case": case, "extra": extra}})
 
     base = os.environ.get("VF_SCRATCH", "/var/tmp")
     hdir = tempfile.mkdtemp(prefix="h15-", dir=base)
@@ -145,6 +145,45 @@ def run_case(case):
                              "next_same_process": {k: r1.get(k) for k in ("status", "kernel_err", "from_cache")},
                              "next_other_process": {k: g0.get(k) for k in ("status", "kernel_err", "from_cache")}}
             res["cover"]["fault"] = [fault + ("+user_handler" if case.get("user_handler") else "")]
+        elif case["kind"] == "interrupt":
+            intr = case["interrupt"]
+            spec = dict(common, role="f0", request=REQ, expected=exp, timeout=3, repeat=2, user_handler=case.get("user_handler", False), interrupt=intr)
+            p = JH.launch(spec, hdir, "f0", env)
+            rcs = JH.wait_all([p], watchdog=200)
+            events = JH.read_log(logp)
+            res["evaluations"] = 2
+            if any(r is None for r in rcs):
+                return {"verdict": INCONCLUSIVE, "why": "watchdog fired"}
+            rets = {(e["role"], e.get("req")): e for e in events if e["ev"] == "return"}
+            if ("f0", 0) not in rets or ("f0", 1) not in rets:
+                return {"verdict": INCONCLUSIVE, "why": "interrupt fell outside the request (no return records): " + open(os.path.join(hdir, "err-f0.txt")).read()[-200:]}
+            r0, r1 = rets[("f0", 0)], rets[("f0", 1)]
+            if r0["status"] != "raised" or r0.get("exc") != "KeyboardInterrupt":
+                return {"verdict": INCONCLUSIVE, "why": f"the interrupt did not end the request ({r0['status']} {r0.get('exc')})"}
+            count("interrupted_requests")
+            for name, rr in (("the interrupted request", r0), ("the next request in the same process", r1)):
+                sc = rr.get("state_changed") or {}
+                if "handlers" in sc or "handler_types" in sc:
+                    viol("root-logger-handlers-not-restored", f"logging.getLogger().handlers after {name}: {sc.get('handler_types')} (ids {sc.get('handlers')})")
+                else:
+                    count("handlers_restored")
+                for k in ("stdout", "stderr", "cwd", "root_level", "disabled"):
+                    if k in sc:
+                        viol("process-state-not-restored", f"{k} changed across {name}: {sc[k]}")
+                count("state_checks")
+            # the next request: a complete correct module, or an exception within the timeout (the lock of the interrupted build may remain)
+            if r1["status"] == "returned":
+                if r1.get("kernel_err") is None or r1["kernel_err"] > TOL:
+                    viol("wrong-kernels-returned", f"request after the interrupt returned kernels with error {r1.get('kernel_err')} {r1.get('kernel_check_error')}")
+                else:
+                    count("next_request_ok")
+            else:
+                count("next_raised_" + str(r1.get("exc")))
+            if not res["violations"]:
+                res["nontrivial"].append(case_hash([case["kind"], intr, case.get("user_handler")]))
+            res["sample"] = {"kind": "interrupt", "interrupt": intr, "interrupted_request": {k: r0.get(k) for k in ("status", "exc", "files", "state_changed")},
+                             "next_same_process": {k: r1.get(k) for k in ("status", "exc", "kernel_err", "from_cache", "state_changed")}}
+            res["cover"]["fault"] = ["interrupt:" + json.dumps(intr, sort_keys=True) + ("+user_handler" if case.get("user_handler") else "")]
         else:
             kill = case["kill"]
             spec = dict(common, role="victim", request=REQ, expected=exp, timeout=5, kill=kill, new_session=True)
@@ -225,6 +264,14 @@ def cases_for(tier, s):
     for fault in ("codegen_exception", "bad_flag", "transient_cc", "transient_link"):
         R.append({"kind": "fail", "fault": fault})
         R.append({"kind": "fail", "fault": fault, "user_handler": True})
+    # Ctrl-C (KeyboardInterrupt) at protocol points inside the build, in a process that survives it
+    for i, intr in enumerate([{"before": "popen_cc"}, {"before": "popen_link"}, {"after_popen": "cc", "delta": 0.02}, {"before": "marker_open"},
+                              {"before": "rename_src"}, {"after_popen": "link", "delta": 0.01}]):
+        if tier == "quick" and i >= 4:
+            continue
+        R.append({"kind": "interrupt", "interrupt": intr, "user_handler": bool(i % 2)})
+        if tier == "thorough":
+            R.append({"kind": "interrupt", "interrupt": intr, "user_handler": not bool(i % 2)})
     kills = [{"before_event": k} for k in range(0, 8)]
     kills += [{"after_popen": "cc", "delta": 0.05, "group": True}, {"after_popen": "cc", "delta": 0.05, "group": False},
               {"after_popen": "cc", "delta": 0.3, "group": True}, {"after_popen": "link", "delta": 0.02, "group": True}, {"after_popen": "link", "delta": 0.02, "group": False},
